@@ -40,6 +40,14 @@ CHECKS = {
    text="Explicit-state search on the real core: every request kind of an ordinary client (set, cset, delete, pdelete, publish, spubInit/spub, lock, grave goods / last will + disconnect) crossed with every key/pattern shape that can reach $SYS, with sentinels planted by the server's own client and watched by internal subscribers; no sentinel may change and no internal subscriber may see an event the reference does not attribute to the server.",
    note="For wildcard-first patterns refusing, skipping $SYS, or skipping all but the client's own three entries are all accepted as conforming.",
    technique="explicit-state model checking of the real core (BFS over request histories, snapshot de-duplication, reference-model oracle)"),
+ "C13": dict(cat="model_checking", engine="wbmc-core/graph", ref="DESIGN.md §3 C13",
+   text="Explicit-state search over sequences of request lines of two concurrent sessions through the real protocol handler (Proto, v0 and v1) and the real core task: every request kind with valid and invalid arguments; per request exactly one terminal message with its transaction id and of the protocol's kind (or an Err whose code is one of the applicable reasons), subscription events carry the subscribe's id and follow its Ack, a failing request neither ends the session nor disturbs the other session; the core's tables must equal the reference after every line.",
+   note="In-process sessions fed one line at a time (within one connection the real serve loop is sequential as well); polling order between forwarding tasks is tokio's FIFO and not enumerated; handshake messages are not requests.",
+   technique="explicit-state model checking of the real protocol handler + core task (BFS over line sequences of two sessions, snapshot de-duplication, protocol-table reference)"),
+ "C17": dict(cat="model_checking", engine="wbmc-core/tree", ref="DESIGN.md §3 C17",
+   text="Stateless enumeration of all sequences (depth 2 quick / 3 thorough) of adversary lines - every request kind with valid, invalid and absurd arguments (10 kB and 64-level keys, u64::MAX ids/versions, negative numbers), malformed/undecodable lines, unknown variants - interleaved with witness requests and followed by a fixed witness script; the harness is built with debug assertions and overflow checks: the core task must stay alive, undecodable lines must end only the offending session, the witness must get exactly the reference's answers.",
+   note="'All byte lines' beyond the alphabet would be fuzzing (another family); the alphabet and depth are stated in the evidence.",
+   technique="stateless bounded-exhaustive exploration of the real protocol handler + core task (all line sequences up to depth 2-3, witness-script oracle)"),
 }
 
 NOT_YET = {}
